@@ -53,6 +53,7 @@ fn main() {
         iceoryx2_log::set_logger(&QUIET);
     }
     std::panic::set_hook(Box::new(|_| {}));
+    sched::load_image_ranges();
     let component = argv[1].as_str();
     let a = common::parse_args(&argv[2..]);
     let mut preempt = 2usize;
